@@ -30,6 +30,12 @@ def check_execution(part, ex, cache):
     gen, (R, C), kwargs = ex.gen, ex.shape, ex.kwargs
     inp = ex.input()
     kk = RS.kwargs_key(kwargs)
+    if ex.cut:
+        if ex.cut_total:  # hard cap on draws (never the enumeration budget): "always return a ..." needs a return
+            part.seen((gen, ex.shape, kk, "no-return"), nontrivial=R * C >= 2)
+            inp["script"] = inp["script"][:4096]  # enough to reproduce: replay continues a too-short script with seeded picks
+            part.fail(f"C01:no-return:{gen}", f"{gen}({R}x{C}, {kwargs}) did not return within {len(ex.script)} random draws (cap = {RS.seeded_draw_cap(ex.shape)}, at least 40x what any run of the unchanged generators needed on 3x3..20x20 grids)", inp, f"{len(ex.script)} draws, last 8: {ex.script[-8:]}")
+        return
     if ex.exc is not None:
         part.seen((gen, ex.shape, kk, "raised", type(ex.exc).__name__), nontrivial=R * C >= 2)
         part.fail(f"C01:raises:{gen}", f"{gen}({R}x{C}, {kwargs}) raised {type(ex.exc).__name__}: {str(ex.exc)[:200]} on accepted arguments", inp, repr(ex.exc)[:300])
@@ -128,10 +134,7 @@ def replay(check, inp):
     """re-run exactly the recorded execution (generator, shape, kwargs, decision script); True iff every C01 clause holds on it now"""
     warnings.simplefilter("ignore")
     part = RS.Partial()
-    ex = RS.replay_execution(inp["generator"], tuple(int(x) for x in inp["shape"]), RS.norm_kwargs(inp.get("kwargs") or {}), list(inp["script"]))
-    if ex.cut:
-        print("  the recorded script is no longer a complete execution")
-        return False
+    ex = RS.replay_input(inp)
     check_execution(part, ex, {})
     for f in part.failures:
         print("  still failing:", f["key"], f["what"][:300])
